@@ -77,10 +77,19 @@ def main():
         out_dir = VERIF / "neutral" / a.nid
         out_dir.mkdir(parents=True, exist_ok=True)
         (out_dir / "patch.diff").write_text(patch_text)
+        old = {}
+        if (out_dir / "meta.json").exists():
+            try:
+                old = json.loads((out_dir / "meta.json").read_text())
+            except ValueError:
+                old = {}
+        if suite == "skipped" and old.get("suite_with_change", "skipped") != "skipped":
+            suite = old["suite_with_change"] + " (earlier run; checks re-run only)"
         meta = {
+            **old,
             "neutral_id": a.nid,
             "property": a.prop,
-            "what": a.what,
+            "what": a.what or old.get("what", ""),
             "suite_with_change": suite,
             "checks_not_silent": {p: c for p, (c, _) in sorted(alarms.items())},
             "source": "independent sub-agent given only the property text and a scratch worktree, asked for a behaviour-preserving refactoring",
